@@ -48,6 +48,7 @@ def run(db, rep, feat, tier):
     r3(db, rep)
     r4(db, rep)
     r5_r6(db, rep)
+    r7(db, rep)
     r2(db, rep)
 
 
@@ -177,6 +178,25 @@ def r3(db, rep):
 
 
 # ------------------------------------------------------------------------------------------------ R4
+def r7(db, rep):
+    from mirterm import terms_of, subterms
+    r = rep.rule("R7", "K6", "compute_pre_order is a depth-first discovery order: a vertex is marked visited when it is taken from the "
+                 "stack (and emitted then), never when it is pushed - marking on push emits a vertex at the depth of the first "
+                 "ancestor that saw it, which is not a DFS pre-order on graphs with joins")
+    fn = G + "::compute_pre_order"
+    body = db.mir.get(fn)
+    rep.anchor(body is not None, fn)
+    tm = terms_of(db, fn, {})
+    ins = [(i, t) for i, t in mir_calls(body) if last_seg(mir_callee(t) or "") == "insert" and "HashSet" in (mir_callee(t) or "")]
+    rep.anchor(bool(ins), "visited.insert in compute_pre_order")
+    for n, (i, t) in enumerate(ins):
+        a = tm.operand(t["args"][1])
+        from_pop = any(isinstance(x, tuple) and x and x[0] == "call" and str(x[1]).endswith("::pop") for x in subterms(a))
+        r.decide(from_pop, "pre_order|visited_on_pop|%d" % n, db.where(body, t.get("l")),
+                 "a vertex is marked visited before it is taken from the stack")
+    r.floor(1, "visited.insert sites")
+
+
 def r4(db, rep):
     r = rep.rule("R4", "K6", "Semi-NCA: the ancestor/label maps are initialised from the DFS pre-order (reachable "
                  "vertices only), predecessors without DFS number are skipped before they are looked up, and compress() "
